@@ -344,6 +344,11 @@ func readTLC(paths []string, f func(st *SigTable, obj map[string]any) error) (*S
 				continue
 			}
 			if sigs, ok := obj["sigs"]; ok {
+				if have {
+					// every TLC output repeats the same signature table; the first copy is in use by the
+					// worker goroutines already -- writing the maps again would race with their reads
+					continue
+				}
 				for _, sv := range sigs.([]any) {
 					a := sv.([]any)
 					s := &Sig{Name: a[0].(string), Sort: a[1].(string), Tmpl: a[2].(string)}
